@@ -192,12 +192,22 @@ pub fn create_raw_dict_from_source<R: io::Read, W: io::Write>(
         "create_dict: {epoch_counter} epochs written, writing {} segments",
         pool.len()
     );
+    // The pool holds one segment per epoch, which can be more than fits into the dictionary.
+    // Drop the lowest scoring segments (they are popped first) until the rest fits.
+    let mut pool_size: usize = pool.iter().map(|segment| segment.0.raw.len()).sum();
     // Write the dictionary with the highest scoring segment last because
     // closer items can be represented with a smaller offset
     while let Some(segment) = pool.pop() {
-        output
-            .write_all(&segment.0.raw)
-            .expect("can write to output");
+        let mut raw = segment.0.raw.as_slice();
+        if pool_size > dict_size {
+            if !pool.is_empty() {
+                pool_size -= raw.len();
+                continue;
+            }
+            // Even the best segment alone is too big, keep its start
+            raw = &raw[..dict_size];
+        }
+        output.write_all(raw).expect("can write to output");
     }
 }
 
